@@ -329,7 +329,7 @@ impl Gen {
                 self.flipped = true;
                 format!("env hash=mix:{}", self.rng.below(1 << 30))
             }
-            2 if d.growth_left == 0 && self.rng.chance(1, 4) => {
+            2 if self.variant != "entry-sat" && d.growth_left == 0 && self.rng.chance(1, 4) => {
                 // capacity()==len() with tombstones: the state where shrink_to must not trust capacity()
                 self.phase = 3;
                 match self.rng.below(3) {
@@ -389,6 +389,16 @@ impl Gen {
                     self.flipped = false;
                     self.phase = 0;
                     return "env hash=plan".to_string();
+                }
+                if self.variant == "entry-sat" && self.rng.chance(5, 6) {
+                    // straight into the next fill / punch / insert cycle
+                    self.phase = 0;
+                    let w = hashbrown::verif::GROUP_WIDTH;
+                    self.target_buckets = *self.rng.pick(&[2 * w, 2 * w, 4 * w]);
+                    if d.bucket_mask + 1 > self.target_buckets {
+                        return "a shrink_to_fit".to_string();
+                    }
+                    return self.saturate(r);
                 }
                 if self.rng.chance(1, 12) {
                     self.phase = 0;
